@@ -1,6 +1,8 @@
 package checks
 
 import (
+	"encoding/binary"
+	"bytes"
 	"crypto/sha256"
 	"encoding/json"
 	"fmt"
@@ -195,6 +197,37 @@ func (t c10Target) opener() (func() (filesystem.File, error), []byte, error) {
 			}
 			return fs.OpenFile(name, os.O_RDONLY)
 		}, data, nil
+	case t.FS == "squashfs-sparse":
+		// A file whose middle block is a hole (block size entry 0), as mksquashfs writes for runs of zeroes. The
+		// library's own Finalize never emits one, so the image is derived from one it wrote: three uncompressed,
+		// incompressible full blocks b1 b2 b3 with uncompressed inodes; the middle entry of the inode's block list is
+		// set to 0. A hole occupies no space, so the third block is then found where b2 was stored: the file must read
+		// as b1, 4096 zeroes, b2 (checked below with one sequential read before anything is explored).
+		c := t.C
+		b := randomBytes(17, 3*c)
+		only := &treeSpec{Files: map[string][]byte{name: b}}
+		img, err := buildSquash(only, squashfs.FinalizeOptions{NoFragments: true, NoCompressData: true, NoCompressInodes: true, NonSparse: true}, int64(c), 0)
+		if err != nil {
+			return nil, nil, err
+		}
+		entry := make([]byte, 4)
+		binary.LittleEndian.PutUint32(entry, uint32(c)|1<<24)
+		pat := bytes.Repeat(entry, 3)
+		raw := img.Dev.Peek(0, int(img.Size))
+		at := bytes.Index(raw, pat)
+		if at < 0 || bytes.Index(raw[at+1:], pat) >= 0 {
+			return nil, nil, fmt.Errorf("n/a: block list of the three-block file not found exactly once")
+		}
+		img.Dev.Poke([]byte{0, 0, 0, 0}, int64(at+4))
+		want := append(append(append([]byte{}, b[:c]...), make([]byte, c)...), b[c:2*c]...)
+		open := func() (filesystem.File, error) {
+			fs, err := img.open(true)
+			if err != nil {
+				return nil, err
+			}
+			return fs.OpenFile(name, os.O_RDONLY)
+		}
+		return open, want, nil
 	default:
 		img, err := buildSquash(tree, squashfs.FinalizeOptions{NoFragments: t.FS == "squashfs-nofrag"}, 4096, 0)
 		if err != nil {
@@ -240,6 +273,7 @@ func (t c10Target) scenario(depth int) (explore.Scenario, error) {
 			return out
 		}
 		pos, closed, lastKind := int64(0), false, "none"
+		lastBlock := int64(-1) // block that the most recent data-returning Read ended in: handles cache their last block
 		for i, li := range hist {
 			l := letters[li]
 			last := i == len(hist)-1
@@ -316,6 +350,9 @@ func (t c10Target) scenario(depth int) (explore.Scenario, error) {
 					}
 				}
 				lastKind = "read"
+				if k > 0 {
+					lastBlock = (pos - 1) / int64(t.C)
+				}
 			case "seek":
 				var np int64
 				var err error
@@ -368,7 +405,7 @@ func (t c10Target) scenario(depth int) (explore.Scenario, error) {
 		if pos > size+2*int64(t.C)+8 {
 			out.Prune = true
 		}
-		out.Key = sha256.Sum256([]byte(fmt.Sprintf("%d|%v|%s", pos, closed, lastKind)))
+		out.Key = sha256.Sum256([]byte(fmt.Sprintf("%d|%v|%s|%d", pos, closed, lastKind, lastBlock)))
 		return out
 	}
 	return explore.Scenario{Name: name, Letters: names, Run: run, MaxDepth: depth, MaxStates: 60000}, nil
@@ -387,10 +424,12 @@ func c10Targets(quick bool) []c10Target {
 	for _, fs := range []struct {
 		n string
 		c int
-	}{{"fat12", 512}, {"fat16", 1024}, {"fat32", 512}, {"ext4", 1024}, {"ext4-frag", 1024}, {"iso9660", 2048}, {"squashfs", 4096}, {"squashfs-nofrag", 4096}} {
+	}{{"fat12", 512}, {"fat16", 1024}, {"fat32", 512}, {"ext4", 1024}, {"ext4-frag", 1024}, {"iso9660", 2048}, {"squashfs", 4096}, {"squashfs-nofrag", 4096}, {"squashfs-sparse", 4096}} {
 		sizes := []int{0, 1, fs.c - 1, fs.c, fs.c + 1, 2*fs.c + 3}
 		if fs.n == "ext4-frag" {
 			sizes = []int{3*fs.c + 2, 5 * fs.c}
+		} else if fs.n == "squashfs-sparse" {
+			sizes = []int{3 * fs.c}
 		} else if quick {
 			sizes = []int{0, fs.c + 1, 2*fs.c + 3}
 			if fs.c > 1024 {
@@ -443,6 +482,6 @@ func C10(r *ev.Run) {
 		}
 	}
 	t.write(r)
-	r.Assume("bytes.Reader semantics are the specification of Read/Seek; a state is (cursor, closed, kind of last call); exploration stops expanding a state whose cursor is more than two blocks past EOF")
+	r.Assume("bytes.Reader semantics are the specification of Read/Seek; a state is (cursor, closed, kind of last call, block the last data-returning Read ended in - handles cache their last block); exploration stops expanding a state whose cursor is more than two blocks past EOF")
 	_ = memdev.PageSize
 }
